@@ -51,8 +51,8 @@ func pmRun(c pmCase, prop string) (fail *vlib.Failure, rs pmRunStats) {
 	pc := vlib.CatchFault(func() { initErr = Init(uintptr(c.KStart), uintptr(c.KEnd)) })
 	if pc.Panicked {
 		rs.initFailed = true
-		if prop == "C03" {
-			return vlib.Failf("pmm.Init crashed instead of succeeding or reporting out-of-memory: %v", pc), rs
+		if prop == "C03" || prop == "C07" {
+			return vlib.Failf("pmm.Init crashed instead of succeeding or reporting out-of-memory (the region it reserved for its state is followed by an inaccessible page): %v", pc), rs
 		}
 		return nil, rs
 	}
@@ -414,7 +414,27 @@ func pmOutsideFrames(c pmCase, availSet map[uint64]bool) []uint64 {
 
 func pmGenCase(t *rapid.T, prop string) (pmCase, string, bool) {
 	var c pmCase
-	c.Regions = pmGenRegions(t, 8, prop == "C03" && rapid.Bool().Draw(t, "forceBoundary"))
+	switch cls := rapid.IntRange(0, 599).Draw(t, "mapclass"); {
+	case cls == 599:
+		// a large machine whose allocator state (pool table + bitmaps) is within a word of a page multiple
+		c.Regions = c07pGenRegions(t)
+	default:
+		c.Regions = pmGenRegions(t, 8, prop == "C03" && rapid.Bool().Draw(t, "forceBoundary"))
+		if cls >= 580 {
+			// one more region exactly 2^32 frames (16 TiB) above an earlier one: frame numbers that
+			// agree in their low 32 bits
+			var avail []pmRegion
+			for _, r := range c.Regions {
+				if r.Typ == 1 && r.Addr+r.Len < 1<<43 {
+					avail = append(avail, r)
+				}
+			}
+			if len(avail) > 0 && c.Regions[len(c.Regions)-1].Addr+c.Regions[len(c.Regions)-1].Len < 1<<43 {
+				r := avail[rapid.IntRange(0, len(avail)-1).Draw(t, "aliasof")]
+				c.Regions = append(c.Regions, pmRegion{r.Addr + 1<<44, r.Len, 1})
+			}
+		}
+	}
 	ks, ke, where, ok := pmGenKernel(t, c.Regions)
 	if !ok {
 		return c, "", false
